@@ -78,7 +78,14 @@ func e12Case(seed uint64, tr, victim int, moment, mech string, race bool) Case {
 		}
 		fam := filterFamily()
 		t := newTree(g.ctl)
-		if err := t.grow(rng, nn, 4, fam, childKinds, true); err != nil {
+		// node #1 is always a monitor directly under the controller (closing a
+		// monitor before its publisher is ready is a moment of its own)
+		if _, err := t.addChild(t.root, "monitor", nil, true); err != nil {
+			r.V("C11", "tree-build-error", "%v", err)
+			g.shutdown(r, "C12")
+			return
+		}
+		if err := t.grow(rng, nn-1, 4, fam, childKinds, true); err != nil {
 			r.V("C11", "tree-build-error", "%v", err)
 			g.shutdown(r, "C12")
 			return
@@ -238,6 +245,77 @@ func e12Case(seed uint64, tr, victim int, moment, mech string, race bool) Case {
 	}}
 }
 
+// e12NeverReadyCase: nodes below a for-filter clone that never gets a filter
+// (and therefore never becomes ready) must still be closable one by one, and
+// closing them must leave the rest alone.
+func e12NeverReadyCase(seed uint64, n int) Case {
+	id := fmt.Sprintf("E12/never-ready-parent/%d/%d", seed, n)
+	return Case{ID: id, Desc: map[string]interface{}{"seed": seed, "n": n, "what": "close monitors / subscriptions below a clone that never becomes ready"}, Bubble: true, Run: func(r *Res) {
+		rng := kit.NewRng(kit.Mix(seed, uint64(n)+1212))
+		core := kit.NewCore(&kit.Plan{Seed: rng.U64(), PYield: 100, PSleep: 20, MaxSleep: 80 * time.Microsecond})
+		srv := kit.NewPodServer(core)
+		u := smallUniverse()
+		for i := 0; i < 3; i++ {
+			u.mutate(rng, srv)
+		}
+		g, err := newCtlRig(core, srv, 10*time.Second, nil)
+		if err != nil {
+			r.Inc(err.Error())
+			return
+		}
+		t := newTree(g.ctl)
+		ff, err := t.addChild(t.root, "cloneff", nil, true)
+		if err != nil {
+			r.V("C11", "tree-build-error", "%v", err)
+			return
+		}
+		var kids []*node
+		for _, k := range []string{"monitor", "sub", "subwf", "monitor", "clone"} {
+			c, err := t.addChild(ff, k, filterFamily()[2], true)
+			if err != nil {
+				r.V("C11", "tree-build-error", "%v", err)
+				return
+			}
+			kids = append(kids, c)
+		}
+		waitCh(g.ctl.Ready(), virtBound)
+		g.barrier()
+		order := []int{0, 1, 2, 3, 4}
+		for i := range order {
+			j := i + rng.Intn(len(order)-i)
+			order[i], order[j] = order[j], order[i]
+		}
+		for _, idx := range order[:3] {
+			v := kids[idx]
+			if !within(v.closer) || !waitCh(v.done, virtBound) {
+				r.V("C11", "descendant-not-closed", "%s below a for-filter clone that never becomes ready: Close() did not complete / Done() did not close within %v of virtual time\n%s", v, virtBound, kit.CensusText(kit.Census(), 8))
+				return
+			}
+			g.barrier()
+			r.Add("subtree-nodes-checked", 1)
+			for _, o := range kids {
+				closedAlready := false
+				for _, c := range order[:3] {
+					if kids[c] == o && isClosed(o.done) {
+						closedAlready = true
+					}
+				}
+				if o != v && !closedAlready && isClosed(o.done) {
+					r.V("C11", "shutdown-spread", "closing %s also closed its sibling %s", v, o)
+				}
+				r.Add("outside-nodes-checked", 1)
+			}
+			if isClosed(ff.done) || isClosed(g.ctl.Done()) {
+				r.V("C11", "shutdown-spread", "closing %s took down its parent", v)
+			}
+		}
+		r.Add("never-ready-parent-cases", 1)
+		g.shutdown(r, "C12")
+		r.Key(id)
+		r.Sample = map[string]interface{}{"closed": order[:3]}
+	}}
+}
+
 func init() {
 	register("E12", func(tier string, seed uint64) []Case {
 		var cases []Case
@@ -246,7 +324,7 @@ func init() {
 			size := e12TreeSize(seed, tr)
 			for v := 0; v < size; v++ {
 				for mi, m := range e12Moments {
-					if tier == "quick" && (v+mi+tr)%2 == 1 && v != 0 {
+					if tier == "quick" && (v+mi+tr)%2 == 1 && v > 1 {
 						continue
 					}
 					mechs := []string{"close"}
@@ -261,6 +339,9 @@ func init() {
 					}
 				}
 			}
+		}
+		for i := 0; i < tierPick(tier, 12, 300); i++ {
+			cases = append(cases, e12NeverReadyCase(seed, i))
 		}
 		// joins as tree members: closing a join closes what the join created and
 		// nothing else (E10's create/close cycles, close-related classes)
